@@ -90,6 +90,19 @@ func main() {
 		})
 	case "probe-replace":
 		probeReplace()
+	case "probe-dslife":
+		probeDSLife()
+	case "dslife":
+		simple(os.Args[2:], func(w *env.World, out *bufio.Writer) func([]byte) error {
+			r := &drive.DsLifeRunner{W: w, Out: out}
+			return func(line []byte) error {
+				var b drive.DsLifeBeh
+				if err := json.Unmarshal(line, &b); err != nil {
+					return err
+				}
+				return r.Run(&b)
+			}
+		})
 	case "netconf":
 		simple(os.Args[2:], func(w *env.World, out *bufio.Writer) func([]byte) error {
 			r := &drive.NCRunner{W: w, Out: out}
